@@ -65,7 +65,15 @@ def _wrap(lines, ws, base):
     return head, [ind + l for l in lines], tail, ind
 
 
-def place(rng, bind, use_stmt, names=("helper_",), shape=None):
+LATER = [
+    "def later_{k}_():\n    from elsewhere_ import thing_ as {n}\n    return {n}",
+    "def later_{k}_():\n    import other_pkg_.mod_ as {n}\n    return {n}",
+    "class Later_{k}_:\n    from compat_ import shim_ as {n}",
+    "def later_{k}_({n}):\n    return {n}.loads(b'')",
+]
+
+
+def place(rng, bind, use_stmt, names=("helper_",), shape=None, later=None):
     """-> (source, line number of the use statement, {"outer": [...], "filler": ..., "inner": [...], "shape": ...})"""
     shape = shape or rng.choice(["nested", "nested", "sibling"])
     outer = [rng.choice(WRAPPERS) for _ in range(rng.choice([0, 1, 1, 2]))]
@@ -88,9 +96,18 @@ def place(rng, bind, use_stmt, names=("helper_",), shape=None):
         ih, ib, it, _ = _wrap([use_stmt], inner, 10)
         lines = oh + ob + ot + flines + ih + ib + it
         use_idx = len(oh) + len(ob) + len(ot) + len(flines) + len(ih)
+    lab_later = None
+    if later is None:
+        later = rng.random() < 0.35
+    if later:
+        # something further DOWN the file binds the same name again, inside another scope (a function-local import, a parameter): the alias table is filled
+        # in source order, so the use above is not affected (seeded change C01-m12 pre-seeded the table from the whole file)
+        k = rng.randrange(len(LATER))
+        lines = lines + ["", ""] + LATER[k].format(k=k, n=n).split("\n")
+        lab_later = k
     src = "\n".join(lines) + "\n"
     assert lines[use_idx].strip() == use_stmt.strip(), (lines, use_idx)
-    return src, use_idx + 1, {"outer": [w[0] for w in outer], "filler": fname, "inner": [w[0] for w in inner], "shape": shape}
+    return src, use_idx + 1, {"outer": [w[0] for w in outer], "filler": fname, "inner": [w[0] for w in inner], "shape": shape, "later": lab_later}
 
 
 SCOPES = {"def": "function", "async_def": "function", "method": "function", "class": "class"}
